@@ -832,17 +832,21 @@ Proof.
 Qed.
 
 Lemma typing_pure_seq ks : forall s s',
-  searching s = true -> vi s = false -> Forall typing_key ks ->
+  searching s = true -> (vi s = false \/ ~ In KBackspace ks) -> Forall typing_key ks ->
   keys_run ceq s ks = Some s' ->
-  main s' = main s /\ searching s' = true /\ ss_text s' = ss_text s /\ ss_dir s' = ss_dir s /\ vi s' = false.
+  main s' = main s /\ searching s' = true /\ ss_text s' = ss_text s /\ ss_dir s' = ss_dir s /\ vi s' = vi s.
 Proof.
   induction ks as [|k ks IH]; intros s s' Hs Hv Hk.
   - cbn. intros [= <-]. auto.
   - cbn [keys_run]. destruct (key_step ceq s k) as [s1|] eqn:E; [|discriminate].
     inversion Hk as [|? ? Hk1 Hk2]; subst.
-    destruct (typing_pure _ _ _ Hs Hk1 (or_introl Hv) E) as (Hm & Hs1 & Ht & Hd & Hv1).
-    intros E2. rewrite Hv in Hv1.
-    destruct (IH _ _ Hs1 Hv1 Hk2 E2) as (Hm2 & Hs2 & Ht2 & Hd2 & Hv2).
+    assert (Hv' : vi s = false \/ k <> KBackspace \/ field s <> []).
+    { destruct Hv as [Hv|Hv]; [now left|]. right; left. intros ->. apply Hv. now left. }
+    destruct (typing_pure _ _ _ Hs Hk1 Hv' E) as (Hm & Hs1 & Ht & Hd & Hv1).
+    intros E2.
+    assert (Hv2 : vi s1 = false \/ ~ In KBackspace ks).
+    { destruct Hv as [Hv|Hv]; [left; congruence|right]. intros Hin. apply Hv. now right. }
+    destruct (IH _ _ Hs1 Hv2 Hk2 E2) as (Hm2 & Hs2 & Ht2 & Hd2 & Hv3).
     repeat split; congruence.
 Qed.
 
@@ -882,9 +886,82 @@ Proof.
   destruct (start_pure s k0 s1 Hs) as (Hm1 & Hs1 & Hv1); auto.
   { destruct Hk0; auto. } { congruence. }
   rewrite Hv in Hv1.
-  destruct (typing_pure_seq ks s1 s2 Hs1 Hv1 Hks E2) as (Hm2 & Hs2 & _ & _ & Hv2).
-  destruct (abort_pure s2 s3 Hs2 E3) as (Hs3 & Hm3). rewrite Hv2 in Hm3.
+  destruct (typing_pure_seq ks s1 s2 Hs1 (or_introl Hv1) Hks E2) as (Hm2 & Hs2 & _ & _ & Hv2).
+  destruct (abort_pure s2 s3 Hs2 E3) as (Hs3 & Hm3). rewrite Hv2, Hv1 in Hm3.
   split; congruence.
+Qed.
+
+(* Vi: Backspace on an empty search field is abort *)
+Lemma vi_backspace_abort s s' :
+  searching s = true -> vi s = true -> field s = [] -> key_step ceq s KBackspace = Some s' ->
+  searching s' = false /\ main s' = fix_vi (main s).
+Proof.
+  intros Hs Hv Hf. unfold key_step. rewrite Hs, Hv, Hf. change (len (@nil Z) =? 0) with true. cbn [andb].
+  unfold post, stop_search. cbn [vi searching negb andb main with_main]. rewrite Hv. cbn [andb].
+  intros [= <-]. cbn [main searching]. auto.
+Qed.
+
+(* a Vi session that starts a search ('/' or '?'), edits the field without
+   Backspace and aborts (C-g): the main buffer is as before, up to the
+   end-of-line rule of navigation mode (the identity on every state navigation
+   mode can be in) *)
+Lemma start_typing_abort_vi s k0 ks s1 s2 s3 :
+  searching s = false -> vi s = true -> (k0 = KSlash \/ k0 = KQuestion) ->
+  key_step ceq s k0 = Some s1 -> Forall typing_key ks -> ~ In KBackspace ks ->
+  keys_run ceq s1 ks = Some s2 -> key_step ceq s2 KCg = Some s3 ->
+  main s3 = fix_vi (main s) /\ searching s3 = false.
+Proof.
+  intros Hs Hv Hk0 E1 Hks Hnb E2 E3.
+  assert (H4 : k0 = KCr \/ k0 = KCs \/ k0 = KSlash \/ k0 = KQuestion) by (destruct Hk0; auto).
+  assert (Hf : vi s = false -> k0 = KCr \/ k0 = KCs) by congruence.
+  destruct (start_pure s k0 s1 Hs H4 (fun _ => Hk0) Hf E1) as (Hm1 & Hs1 & Hv1).
+  destruct (typing_pure_seq ks s1 s2 Hs1 (or_intror Hnb) Hks E2) as (Hm2 & Hs2 & _ & _ & Hv2).
+  destruct (abort_pure s2 s3 Hs2 E3) as (Hs3 & Hm3). rewrite Hv2, Hv1, Hv in Hm3.
+  split; congruence.
+Qed.
+
+(* next / previous while searching (C-r, C-s; emacs also Up, Down) are
+   do_incremental_search: a direction change only turns the search around,
+   otherwise apply_search(include_current_position=False, count=1) for the
+   field text in that direction *)
+Definition nav_dir (k : key) : option Z :=
+  match k with KCr | KUp => Some 1 | KCs | KDown => Some 0 | _ => None end.
+
+Lemma next_is_search s k dir s' :
+  searching s = true -> nav_dir k = Some dir -> (vi s = true -> k = KCr \/ k = KCs) ->
+  key_step ceq s k = Some s' ->
+  searching s' = true /\ ss_text s' = field s /\ ss_dir s' = dir /\ field s' = field s /\
+  main s' = (if ss_dir s =? dir then apply_search ceq (main s) (mkss (field s) dir (ign s)) false 1
+             else main s).
+Proof.
+  intros Hs Hd Hv. unfold key_step. rewrite Hs.
+  assert (Hgen : Some (post (do_incremental_search ceq s dir 1)) = Some s' ->
+    searching s' = true /\ ss_text s' = field s /\ ss_dir s' = dir /\ field s' = field s /\
+    main s' = (if ss_dir s =? dir then apply_search ceq (main s) (mkss (field s) dir (ign s)) false 1 else main s)).
+  { unfold do_incremental_search, with_state, with_main, the_state.
+    destruct (ss_dir s =? dir) eqn:Ed; cbn [negb main field fcur ss_text ss_dir ign searching vi];
+      (rewrite post_searching by (cbn [searching]; exact Hs)); intros [= <-];
+      cbn [main field ss_text ss_dir searching]; repeat split; try reflexivity; exact Hs. }
+  destruct k; try discriminate; injection Hd as <-.
+  - exact Hgen.
+  - exact Hgen.
+  - destruct (vi s) eqn:Ev; [destruct (Hv eq_refl); discriminate|exact Hgen].
+  - destruct (vi s) eqn:Ev; [destruct (Hv eq_refl); discriminate|exact Hgen].
+Qed.
+
+(* Vi n / N in navigation mode: apply_search(include_current_position=False,
+   count) with the stored state resp. its inversion *)
+Lemma n_is_search s k c s' :
+  vi s = true -> searching s = false -> (k = Kn c \/ k = KN c) ->
+  key_step ceq s k = Some s' ->
+  let st := match k with Kn _ => the_state s | _ => invert (the_state s) end in
+  main s' = fix_vi (apply_search ceq (main s) st false c) /\
+  ss_text s' = ss_text s /\ ss_dir s' = ss_dir s /\ searching s' = false.
+Proof.
+  intros Hv Hs Hk. unfold key_step. rewrite Hs, Hv.
+  destruct Hk as [-> | ->]; cbv zeta; unfold post, with_main;
+    cbn [vi searching main ss_text ss_dir andb negb]; rewrite ?Hv, ?Hs; cbn [andb negb];
+    intros [= <-]; cbn [main ss_text ss_dir searching]; repeat split; try reflexivity; exact Hs.
 Qed.
 
 (* Vi '*' / '#' are apply_search(include_current_position=False, count) for the
